@@ -1,27 +1,24 @@
 (** Proofs about the binary32 model of Float32Defs.v (Souffle's FADD .. F2U, I2F, U2F, FMAX/FMIN and the
-    float comparisons of src/interpreter/Engine.cpp on RamDomain bit patterns).
-    A. the bit encoding loses nothing except the payload of NaNs;  B. closure in the signed 32-bit range;
-    C. algebra (commutativity holds, associativity and the argument order of std::max with NaN / signed
-       zeros do not: refuted with concrete witnesses);
-    D. specification against real numbers: each operation is the correctly rounded (to nearest even,
-       format FLT(-149, 24)) real operation as long as the result stays below 2^128; comparisons are the
-       real comparisons; int -> float is exact up to 2^24 and float -> int truncates toward zero;
-    E. examples, including instances of the hypotheses of the theorems.
-    Section D uses Flocq's B2R, hence the real-number axioms of the Coq standard library. *)
-From Coq Require Import ZArith Bool Reals Lia Lra.
+    float comparisons of src/interpreter/Engine.cpp on RamDomain bit patterns). The model runs on the
+    proof-free operations of Coq's Floats.SpecFloat.
+    Part 1 (closed under the global context: only computation on Z / spec_float): closure in the signed
+      32-bit range; commutativity of fadd / fmul; associativity and the argument order of std::max with
+      NaN / signed zeros fail (refuted with concrete witnesses); comparisons with NaN; bit-level examples.
+    Part 2 (tie to Flocq): the model coincides with Flocq's verified BinarySingleNaN operations at
+      precision 24 / emax 128 / round to nearest even (bridge lemmas sdec_fdec, senc_u_B2SF, B2SF_f_plus ..),
+      hence: the encoding round trips, and each operation is the correctly rounded (format FLT(-149, 24))
+      real operation while the result stays below 2^128; comparisons are the real comparisons; int -> float
+      is exact up to 2^24 and float -> int truncates toward zero. Part 2 goes through Flocq's B2R and its
+      validity proofs, hence depends on the real-number statements assumed by the Coq standard library. *)
+From Coq Require Import ZArith Bool Reals Lia Lra Floats.SpecFloat.
 From Flocq Require Import Core IEEE754.BinarySingleNaN IEEE754.Binary IEEE754.Bits.
 From SV Require Word32Defs.
 From SV Require Import Float32Defs.
 Local Open Scope Z_scope.
 
-(** * A. Encoding *)
+(** * Part 1: computational facts, closed under the global context *)
 
-Lemma fenc_u_range : forall x, 0 <= fenc_u x < 2 ^ 32.
-Proof.
-  intros x. unfold fenc_u, bits_of_b32.
-  exact (bits_of_binary_float_range 23 8 eq_refl eq_refl (BSN2B 24 128 default_nan_pl32 x)).
-Qed.
-
+(** ** 32-bit words *)
 Lemma in_s_iff : forall z, Word32Defs.in_s z = true <-> - 2 ^ 31 <= z < 2 ^ 31.
 Proof.
   intros z. unfold Word32Defs.in_s, Word32Defs.MIN_S, Word32Defs.MAX_S.
@@ -52,38 +49,19 @@ Qed.
 Lemma u_range : forall a, 0 <= Word32Defs.u a < 2 ^ 32.
 Proof. intros a. unfold Word32Defs.u. apply Z.mod_pos_bound. reflexivity. Qed.
 
+Lemma chk_Some : forall t r, Word32Defs.chk t = Some r -> t = r /\ Word32Defs.in_s r = true.
+Proof.
+  intros t r. unfold Word32Defs.chk. destruct (Word32Defs.in_s t) eqn:E; intros H.
+  - injection H as <-. split; [reflexivity | exact E].
+  - discriminate H.
+Qed.
+
+(** ** Closure *)
 Lemma fenc_in_s : forall x, Word32Defs.in_s (fenc x) = true.
 Proof. intros x. apply wrap_in_s. Qed.
-
-Lemma u_fenc : forall x, Word32Defs.u (fenc x) = fenc_u x.
-Proof. intros x. apply u_wrap, fenc_u_range. Qed.
-
-Lemma fdec_fenc : forall x, fdec (fenc x) = x.
-Proof.
-  intros x. unfold fdec. rewrite u_fenc. unfold fenc_u, b32_of_bits, bits_of_b32.
-  rewrite binary_float_of_bits_of_binary_float.
-  apply B2BSN_BSN2B.
-Qed.
-
-Lemma BSN2B_B2BSN_not_nan :
-  forall nan (y : Binary.binary_float 24 128),
-    Binary.is_nan 24 128 y = false -> BSN2B 24 128 nan (B2BSN 24 128 y) = y.
-Proof. intros nan [s|s|s pl H|s m e H] Hn; try reflexivity. discriminate Hn. Qed.
-
-Lemma fenc_fdec : forall a, Word32Defs.in_s a = true -> f_is_nan a = false -> fenc (fdec a) = a.
-Proof.
-  intros a Ha Hn. unfold f_is_nan, fdec in Hn. rewrite is_nan_B2BSN in Hn.
-  unfold fenc, fenc_u, fdec.
-  rewrite BSN2B_B2BSN_not_nan by exact Hn.
-  unfold bits_of_b32, b32_of_bits.
-  rewrite bits_of_binary_float_of_bits by (apply u_range).
-  apply wrap_u, Ha.
-Qed.
-
-Lemma fenc_nan : fenc BinarySingleNaN.B754_nan = QNAN.
+Lemma fenc_nan : fenc S754_nan = QNAN.
 Proof. vm_compute. reflexivity. Qed.
 
-(** * B. Closure *)
 Lemma fadd_in_s : forall a b, Word32Defs.in_s (fadd a b) = true.
 Proof. intros. apply fenc_in_s. Qed.
 Lemma fsub_in_s : forall a b, Word32Defs.in_s (fsub a b) = true.
@@ -99,23 +77,16 @@ Proof. intros. apply fenc_in_s. Qed.
 Lemma u2f_in_s : forall a, Word32Defs.in_s (u2f a) = true.
 Proof. intros. apply fenc_in_s. Qed.
 
-Lemma chk_Some : forall t r, Word32Defs.chk t = Some r -> t = r /\ Word32Defs.in_s r = true.
-Proof.
-  intros t r. unfold Word32Defs.chk. destruct (Word32Defs.in_s t) eqn:E; intros H.
-  - injection H as <-. split; [reflexivity | exact E].
-  - discriminate H.
-Qed.
-
 Lemma f2i_in_s : forall a r, f2i a = Some r -> Word32Defs.in_s r = true.
 Proof.
-  intros a r. unfold f2i. destruct (f_trunc (fdec a)) as [t|]; intros H.
+  intros a r. unfold f2i. destruct (sf_trunc (sdec a)) as [t|]; intros H.
   - apply chk_Some in H. apply H.
   - discriminate H.
 Qed.
 
 Lemma f2u_in_s : forall a r, f2u a = Some r -> Word32Defs.in_s r = true.
 Proof.
-  intros a r. unfold f2u. destruct (f_trunc (fdec a)) as [t|]; intros H.
+  intros a r. unfold f2u. destruct (sf_trunc (sdec a)) as [t|]; intros H.
   - destruct ((0 <=? t) && (t <? 2 ^ 32)); [|discriminate H].
     injection H as <-. apply wrap_in_s.
   - discriminate H.
@@ -133,33 +104,32 @@ Lemma fmin_in_s : forall a b, Word32Defs.in_s a = true -> Word32Defs.in_s b = tr
   Word32Defs.in_s (fmin a b) = true.
 Proof. intros a b Ha Hb. destruct (fmin_choice a b) as [-> | ->]; assumption. Qed.
 
-(** * C. Algebra *)
-Lemma f_plus_comm : forall x y : f32, f_plus x y = f_plus y x.
+(** ** Algebra *)
+Lemma SFadd_comm : forall x y, SFadd 24 128 x y = SFadd 24 128 y x.
 Proof.
-  intros [sx|sx| |sx mx ex Hx] [sy|sy| |sy my ey Hy]; try reflexivity.
+  intros [sx|sx| |sx mx ex] [sy|sy| |sy my ey]; try reflexivity.
   - destruct sx, sy; reflexivity.
   - destruct sx, sy; reflexivity.
-  - unfold f_plus, BinarySingleNaN.Bplus, Fplus_naive.
+  - unfold SFadd.
     rewrite (Z.min_comm ey ex).
     rewrite (Z.add_comm (cond_Zopp sy _)).
     reflexivity.
 Qed.
 
 Lemma fadd_comm : forall a b, fadd a b = fadd b a.
-Proof. intros a b. unfold fadd. rewrite f_plus_comm. reflexivity. Qed.
+Proof. intros a b. unfold fadd. rewrite SFadd_comm. reflexivity. Qed.
 
-Lemma f_mult_comm : forall x y : f32, f_mult x y = f_mult y x.
+Lemma SFmul_comm : forall x y, SFmul 24 128 x y = SFmul 24 128 y x.
 Proof.
-  intros [sx|sx| |sx mx ex Hx] [sy|sy| |sy my ey Hy]; try reflexivity;
+  intros [sx|sx| |sx mx ex] [sy|sy| |sy my ey]; try reflexivity;
     try (destruct sx, sy; reflexivity).
-  unfold f_mult, BinarySingleNaN.Bmult.
-  apply BinarySingleNaN.B2SF_inj. rewrite !BinarySingleNaN.B2SF_SF2B.
+  unfold SFmul.
   rewrite (xorb_comm sy sx), (Pos.mul_comm my mx), (Z.add_comm ey ex).
   reflexivity.
 Qed.
 
 Lemma fmul_comm : forall a b, fmul a b = fmul b a.
-Proof. intros a b. unfold fmul. rewrite f_mult_comm. reflexivity. Qed.
+Proof. intros a b. unfold fmul. rewrite SFmul_comm. reflexivity. Qed.
 
 Theorem fadd_not_associative_refuted :
   exists a b c, Word32Defs.in_s a = true /\ Word32Defs.in_s b = true /\ Word32Defs.in_s c = true /\
@@ -177,36 +147,58 @@ Proof.
   vm_compute. repeat split; try reflexivity. discriminate.
 Qed.
 
-Lemma fneg_involutive : forall a, Word32Defs.in_s a = true -> f_is_nan a = false -> fneg (fneg a) = a.
+Theorem fmax_signed_zero_order_refuted :
+  exists a b, Word32Defs.in_s a = true /\ Word32Defs.in_s b = true /\
+    f_is_nan a = false /\ f_is_nan b = false /\ fmax a b <> fmax b a.
 Proof.
-  intros a Ha Hn. unfold fneg. rewrite fdec_fenc. unfold f_opp.
-  rewrite BinarySingleNaN.Bopp_involutive. apply fenc_fdec; assumption.
+  exists 0, (Word32Defs.wrap 0x80000000).
+  vm_compute. repeat split; try reflexivity. discriminate.
 Qed.
 
-(** ** fmax / fmin and argument order *)
-Lemma Bcompare_not_nan : forall x y : f32,
-  BinarySingleNaN.is_nan x = false -> BinarySingleNaN.is_nan y = false ->
-  exists c, BinarySingleNaN.Bcompare x y = Some c.
+Theorem i2f_rounds_refuted : exists z, Word32Defs.in_s z = true /\ f2i (i2f z) <> Some z.
+Proof. exists 16777217. vm_compute. split; [reflexivity | discriminate]. Qed.
+
+(** ** comparisons: NaN, argument order of fmax *)
+Lemma flt_nan : forall a b, f_is_nan a = true \/ f_is_nan b = true ->
+  flt a b = false /\ fle a b = false /\ feq a b = false.
 Proof.
-  intros [sx|sx| |sx mx ex Hx] [sy|sy| |sy my ey Hy] Nx Ny;
+  intros a b. unfold f_is_nan, flt, fle, feq.
+  generalize (sdec a) (sdec b). intros x y [H|H].
+  - destruct x; try discriminate H. repeat split; reflexivity.
+  - destruct y; try discriminate H. destruct x; repeat split; reflexivity.
+Qed.
+
+Lemma SFcompare_swap : forall x y,
+  SFcompare y x = match SFcompare x y with Some c => Some (CompOpp c) | None => None end.
+Proof.
+  intros [sx|[]| |[] mx ex] [sy|[]| |[] my ey]; simpl; try reflexivity.
+  - rewrite <- (Zcompare_antisym ex ey). destruct (ex ?= ey); try reflexivity.
+    simpl. rewrite (Pcompare_antisym mx my). reflexivity.
+  - rewrite <- (Zcompare_antisym ex ey). destruct (ex ?= ey); try reflexivity.
+    simpl. rewrite (Pcompare_antisym mx my). reflexivity.
+Qed.
+
+Lemma SFcompare_not_nan : forall x y, is_nan_SF x = false -> is_nan_SF y = false ->
+  exists c, SFcompare x y = Some c.
+Proof.
+  intros [sx|sx| |sx mx ex] [sy|sy| |sy my ey] Nx Ny;
     try discriminate Nx; try discriminate Ny; eexists; reflexivity.
 Qed.
 
-Lemma Bltb_trichotomy : forall x y : f32,
-  BinarySingleNaN.is_nan x = false -> BinarySingleNaN.is_nan y = false ->
-  (BinarySingleNaN.Bltb x y = true /\ BinarySingleNaN.Bltb y x = false) \/
-  (BinarySingleNaN.Bltb x y = false /\ BinarySingleNaN.Bltb y x = true) \/
-  (BinarySingleNaN.Bltb x y = false /\ BinarySingleNaN.Bltb y x = false /\
-   BinarySingleNaN.Beqb x y = true).
+Lemma SFeqb_refl : forall x, SFeqb x x = negb (is_nan_SF x).
 Proof.
-  intros x y Nx Ny.
-  unfold BinarySingleNaN.Bltb, BinarySingleNaN.Beqb, SpecFloat.SFltb, SpecFloat.SFeqb.
-  change (SpecFloat.SFcompare (BinarySingleNaN.B2SF x) (BinarySingleNaN.B2SF y))
-    with (BinarySingleNaN.Bcompare x y).
-  change (SpecFloat.SFcompare (BinarySingleNaN.B2SF y) (BinarySingleNaN.B2SF x))
-    with (BinarySingleNaN.Bcompare y x).
-  rewrite (BinarySingleNaN.Bcompare_swap 24 128 x y).
-  destruct (Bcompare_not_nan x y Nx Ny) as [c ->].
+  intros [sx|[]| |[] mx ex]; try reflexivity; unfold SFeqb, SFcompare;
+    rewrite Z.compare_refl, Pos.compare_cont_refl; reflexivity.
+Qed.
+
+Lemma SFltb_trichotomy : forall x y, is_nan_SF x = false -> is_nan_SF y = false ->
+  (SFltb x y = true /\ SFltb y x = false) \/
+  (SFltb x y = false /\ SFltb y x = true) \/
+  (SFltb x y = false /\ SFltb y x = false /\ SFeqb x y = true).
+Proof.
+  intros x y Nx Ny. unfold SFltb, SFeqb.
+  rewrite (SFcompare_swap x y).
+  destruct (SFcompare_not_nan x y Nx Ny) as [c ->].
   destruct c; simpl; auto.
 Qed.
 
@@ -217,21 +209,274 @@ Lemma fmax_comm_no_nan_partial : forall a b, f_is_nan a = false -> f_is_nan b = 
   feq (fmax a b) (fmax b a) = true.
 Proof.
   intros a b Na Nb. unfold fmax, flt. unfold f_is_nan in Na, Nb.
-  destruct (Bltb_trichotomy _ _ Na Nb) as [[E1 E2]|[[E1 E2]|[E1 [E2 E3]]]]; rewrite E1, E2; unfold feq.
-  - rewrite BinarySingleNaN.Beqb_refl, Nb. reflexivity.
-  - rewrite BinarySingleNaN.Beqb_refl, Na. reflexivity.
+  destruct (SFltb_trichotomy _ _ Na Nb) as [[E1 E2]|[[E1 E2]|[E1 [E2 E3]]]]; rewrite E1, E2; unfold feq.
+  - rewrite SFeqb_refl, Nb. reflexivity.
+  - rewrite SFeqb_refl, Na. reflexivity.
   - exact E3.
 Qed.
 
-Theorem fmax_signed_zero_order_refuted :
-  exists a b, Word32Defs.in_s a = true /\ Word32Defs.in_s b = true /\
-    f_is_nan a = false /\ f_is_nan b = false /\ fmax a b <> fmax b a.
+(** ** Examples (bit level, by computation) *)
+Example ex_fadd_1_2 : fadd 0x3f800000 0x40000000 = 0x40400000.
+Proof. vm_compute. reflexivity. Qed.
+Example ex_fadd_2p24 : fadd 0x4b800000 0x3f800000 = 0x4b800000.
+Proof. vm_compute. reflexivity. Qed.
+Example ex_fdiv_third : fdiv 0x3f800000 0x40400000 = 0x3eaaaaab.
+Proof. vm_compute. reflexivity. Qed.
+Example ex_i2f_round : i2f 16777217 = 0x4b800000.
+Proof. vm_compute. reflexivity. Qed.
+Example ex_f2i_trunc : f2i (Word32Defs.wrap 0xbfc00000) = Some (-1).
+Proof. vm_compute. reflexivity. Qed.
+Example ex_fdiv_zero : fdiv 0x3f800000 0 = 0x7f800000.
+Proof. vm_compute. reflexivity. Qed.
+Example ex_f2i_undef : f2i 0x4f000000 = None.
+Proof. vm_compute. reflexivity. Qed.
+Example ex_f2i_nan : f2i QNAN = None.
+Proof. vm_compute. reflexivity. Qed.
+Example ex_f2u_big : f2u 0x4f000000 = Some (Word32Defs.wrap 0x80000000).
+Proof. vm_compute. reflexivity. Qed.
+Example ex_f2u_neg : f2u (Word32Defs.wrap 0xbfc00000) = None.
+Proof. vm_compute. reflexivity. Qed.
+Example ex_fmul : fmul 0x40400000 (Word32Defs.wrap 0xbf000000) = Word32Defs.wrap 0xbfc00000.
+Proof. vm_compute. reflexivity. Qed.
+Example ex_fsub_inf_inf : fsub 0x7f800000 0x7f800000 = QNAN.
+Proof. vm_compute. reflexivity. Qed.
+Example ex_fsub_denormal : fsub 0x00800000 0x00000001 = 0x007fffff.
+Proof. vm_compute. reflexivity. Qed.
+Example ex_fadd_overflow : fadd 0x7f7fffff 0x7f7fffff = 0x7f800000.
+Proof. vm_compute. reflexivity. Qed.
+Example ex_fmax_nan_left : fmax QNAN 0x40a00000 = QNAN /\ fmax 0x40a00000 QNAN = 0x40a00000.
+Proof. vm_compute. split; reflexivity. Qed.
+
+(** instances satisfying the hypotheses of the theorems of this file *)
+Example ex_fenc_sdec_hyp :
+  Word32Defs.in_s (Word32Defs.wrap 0xbfc00000) = true /\ f_is_nan (Word32Defs.wrap 0xbfc00000) = false /\
+  fneg (Word32Defs.wrap 0xbfc00000) = 0x3fc00000.
+Proof. vm_compute. repeat split; reflexivity. Qed.
+Example ex_fenc_sdec_nan_needed : (* another NaN is not preserved: the no-NaN premise is needed *)
+  Word32Defs.in_s 0x7fc00001 = true /\ f_is_nan 0x7fc00001 = true /\ fenc (sdec 0x7fc00001) <> 0x7fc00001.
+Proof. vm_compute. repeat split; try reflexivity. discriminate. Qed.
+Example ex_f2i_in_s_hyp : f2i 0x4effffff = Some 2147483520.
+Proof. vm_compute. reflexivity. Qed.
+Example ex_f2u_in_s_hyp : f2u 0x4f7fffff = Some (Word32Defs.wrap 4294967040).
+Proof. vm_compute. reflexivity. Qed.
+Example ex_fmax_in_s_hyp :
+  Word32Defs.in_s 0x3f800000 = true /\ Word32Defs.in_s (Word32Defs.wrap 0xbfc00000) = true /\
+  fmax 0x3f800000 (Word32Defs.wrap 0xbfc00000) = 0x3f800000 /\
+  fmin 0x3f800000 (Word32Defs.wrap 0xbfc00000) = Word32Defs.wrap 0xbfc00000.
+Proof. vm_compute. repeat split; reflexivity. Qed.
+Example ex_fmax_no_nan_hyp : f_is_nan 0 = false /\ f_is_nan (Word32Defs.wrap 0x80000000) = false.
+Proof. vm_compute. split; reflexivity. Qed.
+Example ex_flt_nan_hyp : f_is_nan QNAN = true /\ f_is_nan (Word32Defs.wrap 0xffc00001) = true.
+Proof. vm_compute. split; reflexivity. Qed.
+Example ex_i2f_exact_hyp : Z.abs (-16777216) <= 2 ^ 24 /\ i2f (-16777216) = Word32Defs.wrap 0xcb800000.
+Proof. vm_compute. split; [discriminate | reflexivity]. Qed.
+Example ex_i2f_spec_hyp : Word32Defs.in_s 2147483647 = true /\ i2f 2147483647 = 0x4f000000.
+Proof. vm_compute. split; reflexivity. Qed.
+
+(** * Part 2: tie to Flocq's verified BinarySingleNaN operations and to real numbers
+    (specification side; the proofs below use Flocq's B2R, hence the real-number axioms of the
+    Coq standard library) *)
+
+Definition prec32_gt_0 : Prec_gt_0 24 := eq_refl.
+Definition prec32_lt_emax : Prec_lt_emax 24 128 := eq_refl.
+
+(** floats with a single NaN, carrying their validity proof *)
+Definition f32 : Set := BinarySingleNaN.binary_float 24 128.
+Definition fdec (a : Z) : f32 := B2BSN 24 128 (b32_of_bits (Word32Defs.u a)).
+Definition fenc_u (x : f32) : Z := bits_of_b32 (BSN2B 24 128 default_nan_pl32 x).
+Definition f_plus : f32 -> f32 -> f32 := @BinarySingleNaN.Bplus 24 128 prec32_gt_0 prec32_lt_emax mode_NE.
+Definition f_minus : f32 -> f32 -> f32 := @BinarySingleNaN.Bminus 24 128 prec32_gt_0 prec32_lt_emax mode_NE.
+Definition f_mult : f32 -> f32 -> f32 := @BinarySingleNaN.Bmult 24 128 prec32_gt_0 prec32_lt_emax mode_NE.
+Definition f_div : f32 -> f32 -> f32 := @BinarySingleNaN.Bdiv 24 128 prec32_gt_0 prec32_lt_emax mode_NE.
+Definition f_opp : f32 -> f32 := @BinarySingleNaN.Bopp 24 128.
+Definition f_of_Z (z : Z) : f32 :=
+  BinarySingleNaN.binary_normalize 24 128 prec32_gt_0 prec32_lt_emax mode_NE z 0 false.
+Definition f_trunc (x : f32) : option Z :=
+  match x with
+  | BinarySingleNaN.B754_nan => None
+  | BinarySingleNaN.B754_infinity _ => None
+  | _ => Some (BinarySingleNaN.Btrunc x)
+  end.
+
+(** ** the bridge: the proof-free model computes Flocq's operations *)
+Lemma sdec_fdec : forall a, sdec a = BinarySingleNaN.B2SF (fdec a).
 Proof.
-  exists 0, (Word32Defs.wrap 0x80000000).
-  vm_compute. repeat split; try reflexivity. discriminate.
+  intros a. unfold sdec, fdec, b32_of_bits, binary_float_of_bits.
+  rewrite B2SF_B2BSN, B2SF_FF2B. reflexivity.
 Qed.
 
-(** * D. Specification against real numbers *)
+Lemma senc_u_B2SF : forall x : f32, senc_u (BinarySingleNaN.B2SF x) = fenc_u x.
+Proof.
+  intros [s|s| |s m e H]; try reflexivity.
+  unfold fenc_u, bits_of_b32, bits_of_binary_float, BSN2B, BinarySingleNaN.B2SF, senc_u.
+  change (SpecFloat.emin (23 + 1) (2 ^ (8 - 1))) with (-149).
+  replace (e - -149 + 1) with (e + 150) by ring.
+  reflexivity.
+Qed.
+
+Lemma fenc_B2SF : forall x : f32, fenc (BinarySingleNaN.B2SF x) = Word32Defs.wrap (fenc_u x).
+Proof. intros x. unfold fenc. rewrite senc_u_B2SF. reflexivity. Qed.
+
+Lemma round_nearest_even_equiv : forall s m l,
+  round_nearest_even m l = choice_mode mode_NE s m l.
+Proof.
+  intros s m l. destruct l as [|c]; [reflexivity|].
+  destruct c; try reflexivity.
+  simpl. unfold Round.cond_incr. destruct (Z.even m); reflexivity.
+Qed.
+
+Lemma binary_round_aux_equiv : forall sx mx ex lx,
+  SpecFloat.binary_round_aux 24 128 sx mx ex lx
+  = BinarySingleNaN.binary_round_aux 24 128 mode_NE sx mx ex lx.
+Proof.
+  intros sx mx ex lx.
+  unfold SpecFloat.binary_round_aux, BinarySingleNaN.binary_round_aux.
+  destruct (shr_fexp 24 128 mx ex lx) as [mrs' e'].
+  rewrite (round_nearest_even_equiv sx).
+  reflexivity.
+Qed.
+
+Lemma binary_round_equiv : forall s m e,
+  SpecFloat.binary_round 24 128 s m e = BinarySingleNaN.binary_round 24 128 mode_NE s m e.
+Proof.
+  intros s m e.
+  unfold SpecFloat.binary_round, BinarySingleNaN.binary_round, BinarySingleNaN.shl_align_fexp.
+  destruct (shl_align m e (fexp 24 128 (Z.pos (digits2_pos m) + e))) as [mz ez].
+  apply binary_round_aux_equiv.
+Qed.
+
+Lemma binary_normalize_equiv : forall m e szero,
+  SpecFloat.binary_normalize 24 128 m e szero
+  = BinarySingleNaN.B2SF
+      (BinarySingleNaN.binary_normalize 24 128 prec32_gt_0 prec32_lt_emax mode_NE m e szero).
+Proof.
+  intros [|p|p] e szero.
+  - reflexivity.
+  - simpl. rewrite BinarySingleNaN.B2SF_SF2B. apply binary_round_equiv.
+  - simpl. rewrite BinarySingleNaN.B2SF_SF2B. apply binary_round_equiv.
+Qed.
+
+Lemma B2SF_f_plus : forall x y : f32,
+  BinarySingleNaN.B2SF (f_plus x y) = SFadd 24 128 (BinarySingleNaN.B2SF x) (BinarySingleNaN.B2SF y).
+Proof.
+  intros [sx|sx| |sx mx ex Hx] [sy|sy| |sy my ey Hy]; try reflexivity;
+    try (simpl; destruct (Bool.eqb sx sy); reflexivity).
+  symmetry. apply binary_normalize_equiv.
+Qed.
+
+Lemma B2SF_f_minus : forall x y : f32,
+  BinarySingleNaN.B2SF (f_minus x y) = SFsub 24 128 (BinarySingleNaN.B2SF x) (BinarySingleNaN.B2SF y).
+Proof.
+  intros [sx|sx| |sx mx ex Hx] [sy|sy| |sy my ey Hy]; try reflexivity;
+    try (simpl; destruct (Bool.eqb sx (negb sy)); reflexivity).
+  symmetry. unfold f_minus, BinarySingleNaN.Bminus, Fplus_naive.
+  cbn [BinarySingleNaN.B2SF SFsub]. unfold Z.sub.
+  rewrite <- cond_Zopp_negb.
+  apply binary_normalize_equiv.
+Qed.
+
+Lemma B2SF_f_mult : forall x y : f32,
+  BinarySingleNaN.B2SF (f_mult x y) = SFmul 24 128 (BinarySingleNaN.B2SF x) (BinarySingleNaN.B2SF y).
+Proof.
+  intros [sx|sx| |sx mx ex Hx] [sy|sy| |sy my ey Hy]; try reflexivity.
+  unfold f_mult, BinarySingleNaN.Bmult. rewrite BinarySingleNaN.B2SF_SF2B.
+  symmetry. apply binary_round_aux_equiv.
+Qed.
+
+Lemma B2SF_f_div : forall x y : f32,
+  BinarySingleNaN.B2SF (f_div x y) = SFdiv 24 128 (BinarySingleNaN.B2SF x) (BinarySingleNaN.B2SF y).
+Proof.
+  intros [sx|sx| |sx mx ex Hx] [sy|sy| |sy my ey Hy]; try reflexivity.
+  unfold f_div, BinarySingleNaN.Bdiv. rewrite BinarySingleNaN.B2SF_SF2B.
+  cbn [BinarySingleNaN.B2SF SFdiv].
+  destruct (SFdiv_core_binary 24 128 (Z.pos mx) ex (Z.pos my) ey) as [[mz ez] lz].
+  symmetry. apply binary_round_aux_equiv.
+Qed.
+
+Lemma B2SF_f_opp : forall x : f32,
+  BinarySingleNaN.B2SF (f_opp x) = SFopp (BinarySingleNaN.B2SF x).
+Proof. intros [s|s| |s m e H]; reflexivity. Qed.
+
+Lemma B2SF_f_of_Z : forall z, BinarySingleNaN.B2SF (f_of_Z z) = sf_of_Z z.
+Proof. intros z. symmetry. apply binary_normalize_equiv. Qed.
+
+Lemma sf_trunc_B2SF : forall x : f32, sf_trunc (BinarySingleNaN.B2SF x) = f_trunc x.
+Proof. intros [s|s| |s m e H]; reflexivity. Qed.
+
+(** the operations on bit patterns, seen through the bridge *)
+Lemma fadd_B : forall a b, fadd a b = fenc (BinarySingleNaN.B2SF (f_plus (fdec a) (fdec b))).
+Proof. intros. unfold fadd. rewrite !sdec_fdec, B2SF_f_plus. reflexivity. Qed.
+Lemma fsub_B : forall a b, fsub a b = fenc (BinarySingleNaN.B2SF (f_minus (fdec a) (fdec b))).
+Proof. intros. unfold fsub. rewrite !sdec_fdec, B2SF_f_minus. reflexivity. Qed.
+Lemma fmul_B : forall a b, fmul a b = fenc (BinarySingleNaN.B2SF (f_mult (fdec a) (fdec b))).
+Proof. intros. unfold fmul. rewrite !sdec_fdec, B2SF_f_mult. reflexivity. Qed.
+Lemma fdiv_B : forall a b, fdiv a b = fenc (BinarySingleNaN.B2SF (f_div (fdec a) (fdec b))).
+Proof. intros. unfold fdiv. rewrite !sdec_fdec, B2SF_f_div. reflexivity. Qed.
+Lemma fneg_B : forall a, fneg a = fenc (BinarySingleNaN.B2SF (f_opp (fdec a))).
+Proof. intros. unfold fneg. rewrite sdec_fdec, B2SF_f_opp. reflexivity. Qed.
+Lemma i2f_B : forall z, i2f z = fenc (BinarySingleNaN.B2SF (f_of_Z z)).
+Proof. intros. unfold i2f. rewrite B2SF_f_of_Z. reflexivity. Qed.
+Lemma u2f_B : forall a, u2f a = fenc (BinarySingleNaN.B2SF (f_of_Z (Word32Defs.u a))).
+Proof. intros. unfold u2f. rewrite B2SF_f_of_Z. reflexivity. Qed.
+Lemma flt_B : forall a b, flt a b = BinarySingleNaN.Bltb (fdec a) (fdec b).
+Proof. intros. unfold flt, BinarySingleNaN.Bltb. rewrite !sdec_fdec. reflexivity. Qed.
+Lemma fle_B : forall a b, fle a b = BinarySingleNaN.Bleb (fdec a) (fdec b).
+Proof. intros. unfold fle, BinarySingleNaN.Bleb. rewrite !sdec_fdec. reflexivity. Qed.
+Lemma feq_B : forall a b, feq a b = BinarySingleNaN.Beqb (fdec a) (fdec b).
+Proof. intros. unfold feq, BinarySingleNaN.Beqb. rewrite !sdec_fdec. reflexivity. Qed.
+Lemma f_is_nan_B : forall a, f_is_nan a = BinarySingleNaN.is_nan (fdec a).
+Proof. intros. unfold f_is_nan. rewrite sdec_fdec. apply is_nan_SF_B2SF. Qed.
+Lemma f_is_finite_B : forall a, f_is_finite a = BinarySingleNaN.is_finite (fdec a).
+Proof. intros. unfold f_is_finite. rewrite sdec_fdec. apply is_finite_SF_B2SF. Qed.
+Lemma f2i_B : forall a, f2i a = match f_trunc (fdec a) with Some t => Word32Defs.chk t | None => None end.
+Proof. intros. unfold f2i. rewrite sdec_fdec, sf_trunc_B2SF. reflexivity. Qed.
+Lemma f2u_B : forall a, f2u a =
+  match f_trunc (fdec a) with
+  | Some t => if (0 <=? t) && (t <? 2 ^ 32) then Some (Word32Defs.wrap t) else None
+  | None => None
+  end.
+Proof. intros. unfold f2u. rewrite sdec_fdec, sf_trunc_B2SF. reflexivity. Qed.
+
+(** ** round trips of the encoding *)
+Lemma fenc_u_range : forall x, 0 <= fenc_u x < 2 ^ 32.
+Proof.
+  intros x. unfold fenc_u, bits_of_b32.
+  exact (bits_of_binary_float_range 23 8 eq_refl eq_refl (BSN2B 24 128 default_nan_pl32 x)).
+Qed.
+
+Lemma fdec_fenc : forall x : f32, fdec (fenc (BinarySingleNaN.B2SF x)) = x.
+Proof.
+  intros x. rewrite fenc_B2SF. unfold fdec. rewrite u_wrap by apply fenc_u_range.
+  unfold fenc_u, b32_of_bits, bits_of_b32.
+  rewrite binary_float_of_bits_of_binary_float.
+  apply B2BSN_BSN2B.
+Qed.
+
+Lemma sdec_fenc : forall x : f32, sdec (fenc (BinarySingleNaN.B2SF x)) = BinarySingleNaN.B2SF x.
+Proof. intros x. rewrite sdec_fdec, fdec_fenc. reflexivity. Qed.
+
+Lemma BSN2B_B2BSN_not_nan :
+  forall nan (y : Binary.binary_float 24 128),
+    Binary.is_nan 24 128 y = false -> BSN2B 24 128 nan (B2BSN 24 128 y) = y.
+Proof. intros nan [s|s|s pl H|s m e H] Hn; try reflexivity. discriminate Hn. Qed.
+
+Lemma fenc_sdec : forall a, Word32Defs.in_s a = true -> f_is_nan a = false -> fenc (sdec a) = a.
+Proof.
+  intros a Ha Hn. rewrite f_is_nan_B in Hn. unfold fdec in Hn. rewrite is_nan_B2BSN in Hn.
+  rewrite sdec_fdec, fenc_B2SF. unfold fenc_u, fdec.
+  rewrite BSN2B_B2BSN_not_nan by exact Hn.
+  unfold bits_of_b32, b32_of_bits.
+  rewrite bits_of_binary_float_of_bits by (apply u_range).
+  apply wrap_u, Ha.
+Qed.
+
+Lemma fneg_involutive : forall a, Word32Defs.in_s a = true -> f_is_nan a = false -> fneg (fneg a) = a.
+Proof.
+  intros a Ha Hn. rewrite (fneg_B (fneg a)), (fneg_B a), fdec_fenc. unfold f_opp.
+  rewrite BinarySingleNaN.Bopp_involutive. rewrite <- sdec_fdec. apply fenc_sdec; assumption.
+Qed.
+
+(** ** specification against real numbers *)
 Definition fval (a : Z) : R := BinarySingleNaN.B2R (fdec a).
 Definition rnd32 (r : R) : R := round radix2 (FLT_exp (-149) 24) ZnearestE r.
 
@@ -243,7 +488,7 @@ Lemma fadd_spec : forall a b, f_is_finite a = true -> f_is_finite b = true ->
   (Rabs (rnd32 (fval a + fval b)) < bpow radix2 128)%R ->
   fval (fadd a b) = rnd32 (fval a + fval b) /\ f_is_finite (fadd a b) = true.
 Proof.
-  intros a b Fa Fb H. unfold fadd, fval, f_is_finite in *. rewrite fdec_fenc.
+  intros a b Fa Fb H. rewrite f_is_finite_B in *. rewrite fadd_B. unfold fval in *. rewrite fdec_fenc.
   generalize (BinarySingleNaN.Bplus_correct 24 128 prec32_gt_0 prec32_lt_emax mode_NE _ _ Fa Fb).
   rewrite rnd32_eq. rewrite Rlt_bool_true by exact H.
   intros [H1 [H2 _]]. split; assumption.
@@ -254,7 +499,8 @@ Lemma fadd_overflow_spec : forall a b, f_is_finite a = true -> f_is_finite b = t
   (bpow radix2 128 <= Rabs (rnd32 (fval a + fval b)))%R ->
   f_is_finite (fadd a b) = false /\ f_is_nan (fadd a b) = false.
 Proof.
-  intros a b Fa Fb H. unfold fadd, fval, f_is_finite, f_is_nan in *. rewrite fdec_fenc.
+  intros a b Fa Fb H. rewrite f_is_finite_B in *. rewrite f_is_nan_B. rewrite fadd_B.
+  unfold fval in *. rewrite fdec_fenc.
   generalize (BinarySingleNaN.Bplus_correct 24 128 prec32_gt_0 prec32_lt_emax mode_NE _ _ Fa Fb).
   rewrite rnd32_eq. rewrite Rlt_bool_false by exact H.
   intros [H1 _]. unfold f_plus.
@@ -266,7 +512,7 @@ Lemma fsub_spec : forall a b, f_is_finite a = true -> f_is_finite b = true ->
   (Rabs (rnd32 (fval a - fval b)) < bpow radix2 128)%R ->
   fval (fsub a b) = rnd32 (fval a - fval b) /\ f_is_finite (fsub a b) = true.
 Proof.
-  intros a b Fa Fb H. unfold fsub, fval, f_is_finite in *. rewrite fdec_fenc.
+  intros a b Fa Fb H. rewrite f_is_finite_B in *. rewrite fsub_B. unfold fval in *. rewrite fdec_fenc.
   generalize (BinarySingleNaN.Bminus_correct 24 128 prec32_gt_0 prec32_lt_emax mode_NE _ _ Fa Fb).
   rewrite rnd32_eq. rewrite Rlt_bool_true by exact H.
   intros [H1 [H2 _]]. split; assumption.
@@ -276,7 +522,7 @@ Lemma fmul_spec : forall a b, f_is_finite a = true -> f_is_finite b = true ->
   (Rabs (rnd32 (fval a * fval b)) < bpow radix2 128)%R ->
   fval (fmul a b) = rnd32 (fval a * fval b) /\ f_is_finite (fmul a b) = true.
 Proof.
-  intros a b Fa Fb H. unfold fmul, fval, f_is_finite in *. rewrite fdec_fenc.
+  intros a b Fa Fb H. rewrite f_is_finite_B in *. rewrite fmul_B. unfold fval in *. rewrite fdec_fenc.
   generalize (BinarySingleNaN.Bmult_correct 24 128 prec32_gt_0 prec32_lt_emax mode_NE (fdec a) (fdec b)).
   rewrite rnd32_eq. rewrite Rlt_bool_true by exact H.
   intros [H1 [H2 _]]. split; [exact H1|]. unfold f_mult. rewrite H2, Fa, Fb. reflexivity.
@@ -287,7 +533,7 @@ Lemma fdiv_spec : forall a b, f_is_finite a = true -> f_is_finite b = true ->
   (Rabs (rnd32 (fval a / fval b)) < bpow radix2 128)%R ->
   fval (fdiv a b) = rnd32 (fval a / fval b) /\ f_is_finite (fdiv a b) = true.
 Proof.
-  intros a b Fa Fb Hb H. unfold fdiv, fval, f_is_finite in *. rewrite fdec_fenc.
+  intros a b Fa Fb Hb H. rewrite f_is_finite_B in *. rewrite fdiv_B. unfold fval in *. rewrite fdec_fenc.
   generalize (BinarySingleNaN.Bdiv_correct 24 128 prec32_gt_0 prec32_lt_emax mode_NE (fdec a) (fdec b) Hb).
   rewrite rnd32_eq. rewrite Rlt_bool_true by exact H.
   intros [H1 [H2 _]]. split; [exact H1|]. unfold f_div. rewrite H2. exact Fa.
@@ -295,21 +541,21 @@ Qed.
 
 Lemma flt_spec : forall a b, f_is_finite a = true -> f_is_finite b = true ->
   flt a b = Rlt_bool (fval a) (fval b).
-Proof. intros a b Fa Fb. apply BinarySingleNaN.Bltb_correct; assumption. Qed.
+Proof.
+  intros a b Fa Fb. rewrite f_is_finite_B in *. rewrite flt_B.
+  apply BinarySingleNaN.Bltb_correct; assumption.
+Qed.
 Lemma fle_spec : forall a b, f_is_finite a = true -> f_is_finite b = true ->
   fle a b = Rle_bool (fval a) (fval b).
-Proof. intros a b Fa Fb. apply BinarySingleNaN.Bleb_correct; assumption. Qed.
+Proof.
+  intros a b Fa Fb. rewrite f_is_finite_B in *. rewrite fle_B.
+  apply BinarySingleNaN.Bleb_correct; assumption.
+Qed.
 Lemma feq_spec : forall a b, f_is_finite a = true -> f_is_finite b = true ->
   feq a b = Req_bool (fval a) (fval b).
-Proof. intros a b Fa Fb. apply BinarySingleNaN.Beqb_correct; assumption. Qed.
-
-Lemma flt_nan : forall a b, f_is_nan a = true \/ f_is_nan b = true ->
-  flt a b = false /\ fle a b = false /\ feq a b = false.
 Proof.
-  intros a b. unfold f_is_nan, flt, fle, feq.
-  generalize (fdec a) (fdec b). intros x y [H|H].
-  - destruct x; try discriminate H. repeat split; reflexivity.
-  - destruct y; try discriminate H. destruct x; repeat split; reflexivity.
+  intros a b Fa Fb. rewrite f_is_finite_B in *. rewrite feq_B.
+  apply BinarySingleNaN.Beqb_correct; assumption.
 Qed.
 
 (** ** integer conversions *)
@@ -322,8 +568,6 @@ Proof. intros e He. symmetry. exact (IZR_Zpower radix2 e He). Qed.
 Lemma valid_flt32 : Valid_exp (FLT_exp (-149) 24).
 Proof. apply FLT_exp_valid. reflexivity. Qed.
 
-Lemma Rabs_IZR_lt : forall z n, Z.abs z < n -> (Rabs (IZR z) < IZR n)%R.
-Proof. intros z n H. rewrite <- abs_IZR. apply IZR_lt, H. Qed.
 Lemma Rabs_IZR_le : forall z n, Z.abs z <= n -> (Rabs (IZR z) <= IZR n)%R.
 Proof. intros z n H. rewrite <- abs_IZR. apply IZR_le, H. Qed.
 
@@ -342,17 +586,22 @@ Proof.
     + simpl. lia.
 Qed.
 
-Lemma int32_no_overflow : forall z, Z.abs z <= 2 ^ 32 ->
-  (Rabs (rnd32 (IZR z)) < bpow radix2 128)%R.
+Lemma rnd32_no_overflow : forall r, (Rabs r <= bpow radix2 127)%R ->
+  (Rabs (rnd32 r) < bpow radix2 128)%R.
 Proof.
-  intros z Hz.
-  apply Rle_lt_trans with (bpow radix2 32).
+  intros r Hr. apply Rle_lt_trans with (bpow radix2 127).
   - unfold rnd32. apply abs_round_le_generic.
     + apply valid_flt32.
     + apply valid_rnd_N.
     + apply generic_format_bpow. unfold FLT_exp. lia.
-    + rewrite bpow_IZR by lia. apply Rabs_IZR_le, Hz.
+    + exact Hr.
   - apply bpow_lt. lia.
+Qed.
+
+Lemma int32_no_overflow : forall z, Z.abs z <= 2 ^ 32 ->
+  (Rabs (rnd32 (IZR z)) < bpow radix2 128)%R.
+Proof.
+  intros z Hz. apply rnd32_no_overflow. rewrite bpow_IZR by lia. apply Rabs_IZR_le. lia.
 Qed.
 
 Lemma f_of_Z_spec : forall z, Z.abs z <= 2 ^ 32 ->
@@ -367,27 +616,27 @@ Qed.
 
 Lemma i2f_spec : forall z, Word32Defs.in_s z = true -> fval (i2f z) = rnd32 (IZR z).
 Proof.
-  intros z Hz. apply in_s_iff in Hz. unfold fval, i2f. rewrite fdec_fenc.
+  intros z Hz. apply in_s_iff in Hz. unfold fval. rewrite i2f_B, fdec_fenc.
   apply f_of_Z_spec. lia.
 Qed.
 
 Lemma i2f_finite : forall z, Word32Defs.in_s z = true -> f_is_finite (i2f z) = true.
 Proof.
-  intros z Hz. apply in_s_iff in Hz. unfold f_is_finite, i2f. rewrite fdec_fenc.
+  intros z Hz. apply in_s_iff in Hz. rewrite f_is_finite_B, i2f_B, fdec_fenc.
   apply f_of_Z_spec. lia.
 Qed.
 
 Lemma u2f_spec : forall a,
   fval (u2f a) = rnd32 (IZR (Word32Defs.u a)) /\ f_is_finite (u2f a) = true.
 Proof.
-  intros a. unfold fval, f_is_finite, u2f. rewrite fdec_fenc.
+  intros a. rewrite f_is_finite_B. unfold fval. rewrite u2f_B, fdec_fenc.
   apply f_of_Z_spec. pose proof (u_range a). lia.
 Qed.
 
 Lemma i2f_exact : forall z, Z.abs z <= 2 ^ 24 ->
   fval (i2f z) = IZR z /\ f_is_finite (i2f z) = true.
 Proof.
-  intros z Hz. unfold fval, f_is_finite, i2f. rewrite fdec_fenc.
+  intros z Hz. rewrite f_is_finite_B. unfold fval. rewrite i2f_B, fdec_fenc.
   destruct (f_of_Z_spec z) as [H1 H2]; [lia|]. split; [|exact H2].
   rewrite H1. unfold rnd32. apply round_generic.
   - apply valid_rnd_N.
@@ -416,7 +665,7 @@ Qed.
 Lemma f2i_i2f : forall z, Z.abs z <= 2 ^ 24 -> f2i (i2f z) = Some z.
 Proof.
   intros z Hz. destruct (i2f_exact z Hz) as [H1 H2].
-  unfold f2i. unfold fval in H1. unfold f_is_finite in H2.
+  rewrite f2i_B. unfold fval in H1. rewrite f_is_finite_B in H2.
   rewrite (f_trunc_finite _ H2).
   assert (E : BinarySingleNaN.Btrunc (fdec (i2f z)) = z).
   { apply eq_IZR. rewrite BinarySingleNaN.Btrunc_correct, H1. apply trunc_IZR.
@@ -426,13 +675,10 @@ Proof.
   symmetry. apply in_s_iff. lia.
 Qed.
 
-Theorem i2f_rounds_refuted : exists z, Word32Defs.in_s z = true /\ f2i (i2f z) <> Some z.
-Proof. exists 16777217. vm_compute. split; [reflexivity | discriminate]. Qed.
-
 Lemma f2i_spec : forall a r, f2i a = Some r <->
   (f_is_finite a = true /\ IZR r = round radix2 (FIX_exp 0) Ztrunc (fval a) /\ Word32Defs.in_s r = true).
 Proof.
-  intros a r. unfold f2i, f_is_finite, fval. split.
+  intros a r. rewrite f2i_B, f_is_finite_B. unfold fval. split.
   - destruct (f_trunc (fdec a)) as [t|] eqn:E; [|discriminate].
     intros H. apply chk_Some in H. destruct H as [<- Hr].
     apply f_trunc_Some in E. destruct E as [F ->].
@@ -447,7 +693,7 @@ Lemma f2u_spec : forall a r, f2u a = Some r <->
   exists t, f_is_finite a = true /\ IZR t = round radix2 (FIX_exp 0) Ztrunc (fval a) /\
             0 <= t < 2 ^ 32 /\ r = Word32Defs.wrap t.
 Proof.
-  intros a r. unfold f2u, f_is_finite, fval. split.
+  intros a r. rewrite f2u_B, f_is_finite_B. unfold fval. split.
   - destruct (f_trunc (fdec a)) as [t|] eqn:E; [|discriminate].
     destruct ((0 <=? t) && (t <? 2 ^ 32)) eqn:B; [|discriminate].
     intros H. injection H as <-. exists t.
@@ -462,76 +708,7 @@ Proof.
     apply Z.leb_le in B1. apply Z.ltb_lt in B2. rewrite B1, B2. reflexivity.
 Qed.
 
-(** * E. Examples *)
-Example ex_fadd_1_2 : fadd 0x3f800000 0x40000000 = 0x40400000.
-Proof. vm_compute. reflexivity. Qed.
-Example ex_fadd_2p24 : fadd 0x4b800000 0x3f800000 = 0x4b800000.
-Proof. vm_compute. reflexivity. Qed.
-Example ex_fdiv_third : fdiv 0x3f800000 0x40400000 = 0x3eaaaaab.
-Proof. vm_compute. reflexivity. Qed.
-Example ex_i2f_round : i2f 16777217 = 0x4b800000.
-Proof. vm_compute. reflexivity. Qed.
-Example ex_f2i_trunc : f2i (Word32Defs.wrap 0xbfc00000) = Some (-1).
-Proof. vm_compute. reflexivity. Qed.
-Example ex_fdiv_zero : fdiv 0x3f800000 0 = 0x7f800000.
-Proof. vm_compute. reflexivity. Qed.
-Example ex_f2i_undef : f2i 0x4f000000 = None.
-Proof. vm_compute. reflexivity. Qed.
-Example ex_f2i_nan : f2i QNAN = None.
-Proof. vm_compute. reflexivity. Qed.
-Example ex_f2u_big : f2u 0x4f000000 = Some (Word32Defs.wrap 0x80000000).
-Proof. vm_compute. reflexivity. Qed.
-Example ex_f2u_neg : f2u (Word32Defs.wrap 0xbfc00000) = None.
-Proof. vm_compute. reflexivity. Qed.
-Example ex_fmul : fmul 0x40400000 (Word32Defs.wrap 0xbf000000) = Word32Defs.wrap 0xbfc00000.
-Proof. vm_compute. reflexivity. Qed.
-Example ex_fsub_inf_inf : fsub 0x7f800000 0x7f800000 = QNAN.
-Proof. vm_compute. reflexivity. Qed.
-Example ex_fadd_overflow : fadd 0x7f7fffff 0x7f7fffff = 0x7f800000.
-Proof. vm_compute. reflexivity. Qed.
-Example ex_fmax_nan_left : fmax QNAN 0x40a00000 = QNAN /\ fmax 0x40a00000 QNAN = 0x40a00000.
-Proof. vm_compute. split; reflexivity. Qed.
-
-(** instances satisfying the hypotheses of the theorems above *)
-Example ex_fenc_fdec_hyp :
-  Word32Defs.in_s (Word32Defs.wrap 0xbfc00000) = true /\ f_is_nan (Word32Defs.wrap 0xbfc00000) = false /\
-  fneg (Word32Defs.wrap 0xbfc00000) = 0x3fc00000.
-Proof. vm_compute. repeat split; reflexivity. Qed.
-Example ex_fenc_fdec_nan_needed : (* a signalling/other NaN is not preserved: the hypothesis is needed *)
-  Word32Defs.in_s 0x7fc00001 = true /\ f_is_nan 0x7fc00001 = true /\ fenc (fdec 0x7fc00001) <> 0x7fc00001.
-Proof. vm_compute. repeat split; try reflexivity. discriminate. Qed.
-Example ex_f2i_in_s_hyp : f2i 0x4effffff = Some 2147483520.
-Proof. vm_compute. reflexivity. Qed.
-Example ex_f2u_in_s_hyp : f2u 0x4f7fffff = Some (Word32Defs.wrap 4294967040).
-Proof. vm_compute. reflexivity. Qed.
-Example ex_fmax_in_s_hyp :
-  Word32Defs.in_s 0x3f800000 = true /\ Word32Defs.in_s (Word32Defs.wrap 0xbfc00000) = true /\
-  fmax 0x3f800000 (Word32Defs.wrap 0xbfc00000) = 0x3f800000 /\
-  fmin 0x3f800000 (Word32Defs.wrap 0xbfc00000) = Word32Defs.wrap 0xbfc00000.
-Proof. vm_compute. repeat split; reflexivity. Qed.
-Example ex_fmax_no_nan_hyp : f_is_nan 0 = false /\ f_is_nan (Word32Defs.wrap 0x80000000) = false.
-Proof. vm_compute. split; reflexivity. Qed.
-Example ex_flt_nan_hyp : f_is_nan QNAN = true /\ f_is_nan (Word32Defs.wrap 0xffc00001) = true.
-Proof. vm_compute. split; reflexivity. Qed.
-Example ex_i2f_exact_hyp : Z.abs (-16777216) <= 2 ^ 24 /\ i2f (-16777216) = Word32Defs.wrap 0xcb800000.
-Proof. vm_compute. split; [discriminate | reflexivity]. Qed.
-Example ex_i2f_spec_hyp : Word32Defs.in_s 2147483647 = true /\ i2f 2147483647 = 0x4f000000.
-Proof. vm_compute. split; reflexivity. Qed.
-
-(** the real-number hypotheses of fadd_spec .. fdiv_spec, flt_spec .. hold for 1.0f = i2f 1,
-    2.0f = i2f 2, 3.0f = i2f 3 *)
-Lemma rnd32_no_overflow : forall r, (Rabs r <= bpow radix2 127)%R ->
-  (Rabs (rnd32 r) < bpow radix2 128)%R.
-Proof.
-  intros r Hr. apply Rle_lt_trans with (bpow radix2 127).
-  - unfold rnd32. apply abs_round_le_generic.
-    + apply valid_flt32.
-    + apply valid_rnd_N.
-    + apply generic_format_bpow. unfold FLT_exp. lia.
-    + exact Hr.
-  - apply bpow_lt. lia.
-Qed.
-
+(** ** the real-number premises of fadd_spec .. fdiv_spec, flt_spec .. hold for 1.0f = i2f 1, 3.0f = i2f 3 *)
 Example ex_arith_spec_hyp :
   let a := 0x3f800000 in let b := 0x40400000 in
   f_is_finite a = true /\ f_is_finite b = true /\ fval b <> 0%R /\
@@ -558,9 +735,8 @@ Example ex_fadd_overflow_hyp :
 Proof.
   intros a. split; [vm_compute; reflexivity|].
   assert (V : fval a = (16777215 * bpow radix2 104)%R).
-  { unfold fval. rewrite <- BinarySingleNaN.SF2R_B2SF.
-    replace (BinarySingleNaN.B2SF (fdec a)) with (SpecFloat.S754_finite false 16777215 104)
-      by (vm_compute; reflexivity).
+  { unfold fval. rewrite <- BinarySingleNaN.SF2R_B2SF. rewrite <- sdec_fdec.
+    replace (sdec a) with (S754_finite false 16777215 104) by (vm_compute; reflexivity).
     reflexivity. }
   rewrite V.
   apply Rle_trans with (2 := Rle_abs _).
@@ -573,4 +749,120 @@ Proof.
     pose proof (bpow_gt_0 radix2 104). lra.
 Qed.
 
-(* Every statement requested for this file is proved above; nothing is left out. *)
+(** negation flips the sign of the value (NaN has value 0 by convention of [B2R]) *)
+Lemma fneg_spec : forall a, fval (fneg a) = (- fval a)%R /\ f_is_nan (fneg a) = f_is_nan a /\
+  f_is_finite (fneg a) = f_is_finite a.
+Proof.
+  intros a. rewrite !f_is_nan_B, !f_is_finite_B. unfold fval. rewrite fneg_B, fdec_fenc. unfold f_opp.
+  split; [apply BinarySingleNaN.B2R_Bopp|].
+  split; [apply BinarySingleNaN.is_nan_Bopp | apply BinarySingleNaN.is_finite_Bopp].
+Qed.
+
+(** * Family statements (used verbatim by Properties_C24.v) *)
+
+Theorem float_closure_family : forall a b, Word32Defs.in_s a = true -> Word32Defs.in_s b = true ->
+  List.Forall (fun r => Word32Defs.in_s r = true)
+    (fadd a b :: fsub a b :: fmul a b :: fdiv a b :: fneg a :: i2f a :: u2f a :: fmax a b :: fmin a b :: nil) /\
+  (forall r, f2i a = Some r -> Word32Defs.in_s r = true) /\
+  (forall r, f2u a = Some r -> Word32Defs.in_s r = true).
+Proof.
+  intros a b Ha Hb. split; [|split; [apply f2i_in_s | apply f2u_in_s]].
+  repeat constructor.
+  - apply fadd_in_s. - apply fsub_in_s. - apply fmul_in_s. - apply fdiv_in_s. - apply fneg_in_s.
+  - apply i2f_in_s. - apply u2f_in_s. - apply fmax_in_s; assumption. - apply fmin_in_s; assumption.
+Qed.
+
+Theorem float_arith_family : forall a b, f_is_finite a = true -> f_is_finite b = true ->
+  ((Rabs (rnd32 (fval a + fval b)) < bpow radix2 128)%R ->
+     fval (fadd a b) = rnd32 (fval a + fval b) /\ f_is_finite (fadd a b) = true) /\
+  ((Rabs (rnd32 (fval a - fval b)) < bpow radix2 128)%R ->
+     fval (fsub a b) = rnd32 (fval a - fval b) /\ f_is_finite (fsub a b) = true) /\
+  ((Rabs (rnd32 (fval a * fval b)) < bpow radix2 128)%R ->
+     fval (fmul a b) = rnd32 (fval a * fval b) /\ f_is_finite (fmul a b) = true) /\
+  (fval b <> 0%R -> (Rabs (rnd32 (fval a / fval b)) < bpow radix2 128)%R ->
+     fval (fdiv a b) = rnd32 (fval a / fval b) /\ f_is_finite (fdiv a b) = true) /\
+  ((bpow radix2 128 <= Rabs (rnd32 (fval a + fval b)))%R ->
+     f_is_finite (fadd a b) = false /\ f_is_nan (fadd a b) = false).
+Proof.
+  intros a b Fa Fb.
+  split; [apply fadd_spec; assumption|]. split; [apply fsub_spec; assumption|].
+  split; [apply fmul_spec; assumption|]. split; [apply fdiv_spec; assumption|].
+  apply fadd_overflow_spec; assumption.
+Qed.
+
+Theorem float_comm_family : forall a b, fadd a b = fadd b a /\ fmul a b = fmul b a.
+Proof. intros a b. split; [apply fadd_comm | apply fmul_comm]. Qed.
+
+Theorem float_compare_family : forall a b,
+  (f_is_finite a = true -> f_is_finite b = true ->
+     flt a b = Rlt_bool (fval a) (fval b) /\ fle a b = Rle_bool (fval a) (fval b) /\
+     feq a b = Req_bool (fval a) (fval b)) /\
+  (f_is_nan a = true \/ f_is_nan b = true -> flt a b = false /\ fle a b = false /\ feq a b = false).
+Proof.
+  intros a b. split; [|apply flt_nan].
+  intros Fa Fb. split; [apply flt_spec; assumption|]. split; [apply fle_spec | apply feq_spec]; assumption.
+Qed.
+
+Theorem float_minmax_family : forall a b,
+  (fmax a b = a \/ fmax a b = b) /\ (fmin a b = a \/ fmin a b = b) /\
+  (flt (fmax a b) a = false /\ flt (fmax a b) b = false) /\
+  (flt a (fmin a b) = false /\ flt b (fmin a b) = false) /\
+  (f_is_nan a = false -> f_is_nan b = false -> feq (fmax a b) (fmax b a) = true).
+Proof.
+  intros a b. split; [apply fmax_choice|]. split; [apply fmin_choice|].
+  assert (Irr : forall x, flt x x = false).
+  { intros x. unfold flt, SFltb. generalize (sdec x). intros y.
+    destruct (is_nan_SF y) eqn:N.
+    - destruct y; try discriminate N. reflexivity.
+    - pose proof (SFeqb_refl y) as R. rewrite N in R. unfold SFeqb in R.
+      destruct (SFcompare y y) as [[| |]|]; try discriminate R. reflexivity. }
+  assert (Asym : forall x y, flt x y = true -> flt y x = false).
+  { intros x y. unfold flt, SFltb. rewrite (SFcompare_swap (sdec x) (sdec y)).
+    destruct (SFcompare (sdec x) (sdec y)) as [[| |]|]; simpl; intros H; try discriminate H; reflexivity. }
+  split; [|split; [|apply fmax_comm_no_nan_partial]].
+  - unfold fmax. destruct (flt a b) eqn:E.
+    + split; [apply Asym, E | apply Irr].
+    + split; [apply Irr | exact E].
+  - unfold fmin. destruct (flt b a) eqn:E.
+    + split; [apply Asym, E | apply Irr].
+    + split; [apply Irr | exact E].
+Qed.
+
+Theorem float_of_int_family : forall z, Word32Defs.in_s z = true ->
+  fval (i2f z) = rnd32 (IZR z) /\ f_is_finite (i2f z) = true /\
+  fval (u2f z) = rnd32 (IZR (Word32Defs.u z)) /\ f_is_finite (u2f z) = true /\
+  (Z.abs z <= 2 ^ 24 -> fval (i2f z) = IZR z /\ f2i (i2f z) = Some z).
+Proof.
+  intros z Hz. split; [apply i2f_spec, Hz|]. split; [apply i2f_finite, Hz|].
+  destruct (u2f_spec z) as [H1 H2]. split; [exact H1|]. split; [exact H2|].
+  intros Hs. split; [apply i2f_exact, Hs | apply f2i_i2f, Hs].
+Qed.
+
+Theorem float_to_int_family : forall a r,
+  (f2i a = Some r <->
+     (f_is_finite a = true /\ IZR r = round radix2 (FIX_exp 0) Ztrunc (fval a) /\ Word32Defs.in_s r = true)) /\
+  (f2u a = Some r <->
+     exists t, f_is_finite a = true /\ IZR t = round radix2 (FIX_exp 0) Ztrunc (fval a) /\
+               0 <= t < 2 ^ 32 /\ r = Word32Defs.wrap t).
+Proof. intros a r. split; [apply f2i_spec | apply f2u_spec]. Qed.
+
+Theorem float_neg_family : forall a,
+  fval (fneg a) = (- fval a)%R /\ f_is_nan (fneg a) = f_is_nan a /\ f_is_finite (fneg a) = f_is_finite a /\
+  (Word32Defs.in_s a = true -> f_is_nan a = false -> fneg (fneg a) = a).
+Proof.
+  intros a. destruct (fneg_spec a) as (H1 & H2 & H3). split; [exact H1|]. split; [exact H2|].
+  split; [exact H3 | apply fneg_involutive].
+Qed.
+
+(* NOT PROVED / NOT COVERED in this file:
+   - Every statement planned for this file is proved. The theorems of Part 2 (those mentioning [fval],
+     [rnd32], [fdec] or proved through them: *_spec, i2f_exact, f2i_i2f, fenc_sdec, fneg_involutive,
+     fneg_spec and the families built from them) depend on the four standard-library statements behind
+     Coq's real numbers (ClassicalDedekindReals.sig_not_dec, sig_forall_dec,
+     FunctionalExtensionality.functional_extensionality_dep, Classical_Prop.classic), because Flocq's
+     verified operations embed validity proofs that use reals. Part 1 is closed.
+   - fenc_sdec / fneg_involutive could be given closed proofs from Bits.split_join_bits /
+     join_split_bits; not done.
+   - FEXP (std::pow on floats), float <-> string conversions and frange are not modelled.
+   - The sign/payload of NaN results is canonicalised (QNAN); the real x86 code yields 0xffc00000 for
+     invalid operations and propagates payloads, which C++ leaves unspecified. *)
